@@ -377,7 +377,14 @@ class ConsensusRun(object):
             e.unmeasured = r.unmeasured
             e.policy = policy
             e.digest = b64_nopad(hashlib.sha1(b'%s desc %d' % (r.hex.encode(), k if not was else k // 2)).digest())
-            e.published = '2026-09-%02d %02d:%02d:%02d' % (1 + (k * 5 + r.idx) % 28, (7 * r.idx + k) % 24, (13 * k) % 60, r.idx)
+            if not hasattr(self, 'const_published'):
+                # consensus method >= 32 writes one constant publication time into every "r" line
+                self.const_published = ch.chance(1, 2, 'constpub')
+            if self.const_published:
+                e.published = '2038-01-01 00:00:00'
+                sim.probe('constant-publication-time')
+            else:
+                e.published = '2026-09-%02d %02d:%02d:%02d' % (1 + (k * 5 + r.idx) % 28, (7 * r.idx + k) % 24, (13 * k) % 60, r.idx)
             doc.add(e)
             # probes on what changed for a relay listed twice in a row
             if was:
